@@ -240,7 +240,7 @@ pub fn create_temp_db(
     return Arc::new(Database::create_db_from_hash(
         name,
         initial_db,
-        DatabaseMataData::new(dbs.map.read().expect("could not get lock").len(), strategy),
+        DatabaseMataData::new(dbs.next_db_id(), strategy),
     ));
 }
 
